@@ -18,8 +18,8 @@ package types
 
 import (
 	"fmt"
-	"strconv"
-	"strings"
+
+	"github.com/compose-spec/compose-go/v2/utils"
 )
 
 type NanoCPUs float32
@@ -27,7 +27,8 @@ type NanoCPUs float32
 func (n *NanoCPUs) DecodeMapstructure(a any) error {
 	switch v := a.(type) {
 	case string:
-		f, err := parseYAMLNumber(v)
+		// a number given as a string (a variable) denotes what the same text denotes as a YAML literal
+		f, err := utils.ParseYAMLFloat(v, 64)
 		if err != nil {
 			return err
 		}
@@ -42,23 +43,6 @@ func (n *NanoCPUs) DecodeMapstructure(a any) error {
 		return fmt.Errorf("unexpected value type %T for cpus", v)
 	}
 	return nil
-}
-
-// parseYAMLNumber reads a number the way yaml.v3 resolves a plain scalar to !!int or !!float (underscores are
-// ignored, 0x / 0o / 0b select the base, a leading 0 means octal), so that `cpus: ${CPUS}` denotes the number the
-// same text denotes when written as a YAML literal.
-func parseYAMLNumber(value string) (float64, error) {
-	plain := strings.ReplaceAll(value, "_", "")
-	if i, err := strconv.ParseInt(plain, 0, 64); err == nil {
-		return float64(i), nil
-	}
-	if u, err := strconv.ParseUint(plain, 0, 64); err == nil {
-		return float64(u), nil
-	}
-	if f, err := strconv.ParseFloat(plain, 64); err == nil {
-		return f, nil
-	}
-	return strconv.ParseFloat(value, 64)
 }
 
 func (n *NanoCPUs) Value() float32 {
